@@ -47,6 +47,10 @@ def run(ctx):
     write_cfg(d / "Gen4_run.cfg", "GSpec", dict(base, Confs="<- ConfsFault", MaxNest=1, MaxEvents=4 if q else 5),
               invariants=["Emit", "Inv"])
     ctx.tlc(d, "CacheGen", "Gen4_run.cfg", label="cache-gen-fault", timeout=1800)
+    # MaxElementSize equal to the key lengths, with empty and nil values: the fits / does-not-fit edge per key.
+    write_cfg(d / "Gen5_run.cfg", "GSpec", dict(base, Vals="<- MCValsNil", Confs="<- ConfsElemEdge", MaxNest=1, MaxEvents=3 if q else 4),
+              invariants=["Emit", "Inv"])
+    ctx.tlc(d, "CacheGen", "Gen5_run.cfg", label="cache-gen-elemedge", timeout=1800)
     ctx.extra["behaviours_enumerated_exhaustively"] = count_lines(d / "cache_vectors.ndjson")
     # 3. simulated long behaviours (appended to the same vector file).
     write_cfg(d / "Sim_run.cfg", "GSpec", dict(base, Confs="<- AllConfs", MaxNest=2, MaxEvents=30),
